@@ -995,3 +995,25 @@ CASES += [
          new="""        self.var_to_pos.iter().map(|x| VarLabel::new_usize(*x))
     }"""),
 ]
+
+BTF = "src/util/btree.rs"
+CASES += [
+    dict(name="bt-dfs-preorder", file=BTF, rule="BT", props=["C03", "C14"], expect="dfs_recurse:BT1",
+         old="""                l.dfs_recurse(v);
+                v.push_back(self);
+                r.dfs_recurse(v);""",
+         new="""                v.push_back(self);
+                l.dfs_recurse(v);
+                r.dfs_recurse(v);"""),
+    dict(name="bt-mapping-wrong-labelling", file=BTF, rule="BT", props=["C03", "C14"], expect="dfs_to_bfs_mapping:BT3",
+         old="""        let bfs_map = self.bfs_labeling();
+        for i in self.inorder_dfs_iter() {""",
+         new="""        let bfs_map = self.dfs_labeling();
+        for i in self.inorder_dfs_iter() {"""),
+    dict(name="bt-lca-unordered-range", file=BTF, rule="BT", props=["C03", "C14"], expect="lca:BT5",
+         old="""            let (l, r) = if l < r { (l, r) } else { (r, l) };""",
+         new="""            let (l, r) = if l > r { (l, r) } else { (r, l) };"""),
+    dict(name="bt-lca-mirrored-ok", file=BTF, rule="BT", props=["C03", "C14"], expect=None,
+         old="""            let (l, r) = if l < r { (l, r) } else { (r, l) };""",
+         new="""            let (l, r) = if r <= l { (r, l) } else { (l, r) };"""),
+]
